@@ -155,6 +155,8 @@ where
         .sum();
     let kmer_mem = input_kmers * mem::size_of::<(K, D1)>();
     let max_mem = memory_size * 10_usize.pow(9);
+    #[cfg(feature = "verif_hooks")]
+    let max_mem = verif_hooks::max_mem(memory_size, max_mem);
     let slices = kmer_mem / max_mem + 1;
     let sz = 256 / slices + 1;
 
@@ -166,6 +168,8 @@ where
     }
     assert!(bucket_ranges[bucket_ranges.len() - 1].end >= 256);
     let n_buckets = bucket_ranges.len();
+    #[cfg(feature = "verif_hooks")]
+    verif_hooks::record_passes(n_buckets);
 
     if bucket_ranges.len() > 1 {
         debug!(
@@ -302,5 +306,40 @@ pub fn remove_censored_exts<K: Kmer, D>(stranded: bool, valid_kmers: &mut [(K, (
         }
 
         (valid_kmers[idx].1).0 = new_exts;
+    }
+}
+
+/// Verification hooks (feature `verif_hooks`, off by default): let a harness force many bucket passes on
+/// small inputs and observe how many passes the last call on this thread made.
+#[cfg(feature = "verif_hooks")]
+pub mod verif_hooks {
+    use std::cell::Cell;
+
+    thread_local! {
+        static MEM_UNIT: Cell<usize> = Cell::new(0);
+        static LAST_PASSES: Cell<usize> = Cell::new(0);
+    }
+
+    /// Bytes per unit of `memory_size` (0 restores the built-in 10^9).
+    pub fn set_mem_unit(bytes_per_unit: usize) {
+        MEM_UNIT.with(|c| c.set(bytes_per_unit));
+    }
+
+    pub(crate) fn max_mem(memory_size: usize, default: usize) -> usize {
+        let unit = MEM_UNIT.with(|c| c.get());
+        if unit == 0 {
+            default
+        } else {
+            memory_size * unit
+        }
+    }
+
+    pub(crate) fn record_passes(n: usize) {
+        LAST_PASSES.with(|c| c.set(n));
+    }
+
+    /// Number of bucket passes made by the last `filter_kmers` call on this thread.
+    pub fn last_pass_count() -> usize {
+        LAST_PASSES.with(|c| c.get())
     }
 }
